@@ -228,7 +228,10 @@ fn main() {
     let gap: u8 = args[5].parse().unwrap();
     let seeds: u64 = args[6].parse().unwrap();
     let sim_ms: u64 = args[7].parse().unwrap();
-    let addrs: Vec<u8> = args[8..].iter().map(|a| a.parse().unwrap()).collect();
+    let specs: Vec<(u8, u64)> = args[8..].iter().map(|a| { let mut it = a.split('@'); (it.next().unwrap().parse().unwrap(), it.next().map(|x| x.parse().unwrap()).unwrap_or(0)) }).collect();
+    let addrs: Vec<u8> = specs.iter().map(|s| s.0).collect();
+    let race: u64 = std::env::var("RACE_MS").ok().and_then(|v| v.parse().ok()).unwrap_or(0);
+    let stall_rate: u64 = std::env::var("STALL").ok().and_then(|v| v.parse().ok()).unwrap_or(0);
     let verbose = std::env::var_os("PROBE_TRACE").is_some();
 
     let rate = baud.to_rate();
@@ -257,12 +260,12 @@ fn main() {
                         .gap_wait_rotations(gap)
                         .build(),
                 );
-                fdl.set_online();
+                let _ = &specs;
                 Station {
                     addr: a,
                     fdl,
                     phy: SimPhy::new(bus.clone(), i),
-                    next_poll: rng.range(0, pmax),
+                    next_poll: if race > 0 { rng.range(0, race * 1000) } else { rng.range(0, pmax) },
                     pmin,
                     pmax,
                 }
@@ -272,6 +275,8 @@ fn main() {
         let mut conv_at: Option<u64> = None;
         let mut polls = 0u64;
         let mut ncrash = 0u64;
+        let mut nstall = 0u64;
+        let mut joined = vec![false; addrs.len()];
         let crash_rate: u64 = std::env::var("CRASH").ok().and_then(|v| v.parse().ok()).unwrap_or(0);
         loop {
             // pick min next_poll
@@ -281,6 +286,11 @@ fn main() {
                 break;
             }
             let s = &mut stations[i];
+            if !s.fdl.connectivity_state().is_online() && !joined[i] {
+                joined[i] = true;
+                s.fdl.set_online();
+                s.phy = SimPhy::new(bus.clone(), i);
+            }
             let ntx = bus.borrow().txs.len();
             s.fdl.poll(Instant::from_micros(t as i64), &mut s.phy, &mut ());
             polls += 1;
@@ -291,6 +301,10 @@ fn main() {
                 }
             }
             s.next_poll = t + rng.range(s.pmin, s.pmax);
+            if t * rate < bus.borrow().fault_until && rng.range(0, 9999) < stall_rate {
+                s.next_poll += rng.range(1, 30) * (slot_bits as u64) * 1_000_000 / rate;
+                nstall += 1;
+            }
             if t * rate < bus.borrow().fault_until && rng.range(0, 9999) < crash_rate {
                 // crash + immediate restart with empty state; truncate an ongoing transmission
                 let now_t = t * rate;
@@ -366,7 +380,7 @@ fn main() {
         let late_coll = b.collisions.iter().filter(|(_, y)| b.txs[*y].start > settle).count();
         tot_coll += late_coll;
         let self_offline = stations.iter().filter(|s| !s.fdl.connectivity_state().is_online()).count();
-        if !final_ok || late_coll > 0 || seed < 3 { println!("  faults drop/corrupt/rxloss/coll={:?} crashes={} late_coll={} self_offline={}", b.nfaults, ncrash, late_coll, self_offline); }
+        if !final_ok || late_coll > 0 || seed < 3 { println!("  faults drop/corrupt/rxloss/coll={:?} crashes={} stalls={} late_coll={} self_offline={}", b.nfaults, ncrash, nstall, late_coll, self_offline); }
         tot_sync += sync_viol;
         if seed < 5 || !final_ok || !b.collisions.is_empty() {
             println!(
